@@ -183,7 +183,7 @@ func (d *Daemon) startOnce(env ...string) error {
 	cmd.Stdout = f
 	cmd.Stderr = f
 	cmd.Dir = d.Dir
-	cmd.Env = append(os.Environ(), "GORACE=halt_on_error=0 log_path="+filepath.Join(d.Dir, "race-"+d.ID))
+	cmd.Env = append(os.Environ(), "GORACE=halt_on_error=0 exitcode=0 log_path="+filepath.Join(d.Dir, "race-"+d.ID))
 	cmd.Env = append(cmd.Env, d.Env...)
 	cmd.Env = append(cmd.Env, env...)
 	cmd.SysProcAttr = &syscall.SysProcAttr{Setpgid: true}
